@@ -287,6 +287,25 @@ def object_history(part, job):
         if abs(complex(want[n]) - complex(ref)) > tol(L) * 20:
             part.fail("object-history:reference", "fresh-object answer of %s differs from the harmonics reference" % n, {"kind": "objhist", "L": L, "depth": depth})
             return
+    # ... and so are the others: analysis returns the coefficients the samples were synthesised from, synthesis the reference
+    # samples on the object's grid, the power spectrum the per-degree sums (a fresh object in the same process is not an
+    # independent reference if objects share state)
+    th_g, ph_g = np.meshgrid(np.asarray(fresh.theta), np.asarray(fresh.phi), indexing="ij")
+    ref_fc = ylm.synth_complex(L, cc, th_g.ravel(), ph_g.ravel()).reshape(th_g.shape)
+    ref_fr = ylm.synth_real(L, cr, th_g.ravel(), ph_g.ravel()).reshape(th_g.shape)
+    lm_r, lm_c = ylm.lm_real(L), ylm.lm_complex(L)
+    pw_r = np.zeros(L + 1)
+    for (l, m), v in zip(lm_r, cr):
+        pw_r[l] += (1 if m == 0 else 2) * abs(v) ** 2 / (2 * l + 1)
+    pw_c = np.zeros(L + 1)
+    for (l, m), v in zip(lm_c, cc):
+        pw_c[l] += abs(v) ** 2 / (2 * l + 1)
+    anchors = {"analysis_c": cc, "analysis_r": cr, "synthesis_c": ref_fc, "synthesis_r": ref_fr.real, "synthesis_py_r": ref_fr.real, "power_r": pw_r, "power_c": pw_c}
+    for n, ref in anchors.items():
+        w = np.asarray(want[n])
+        if w.shape != np.asarray(ref).shape or np.abs(w - ref).max() > tol(L) * 50 * max(1.0, float(np.abs(ref).max())):
+            part.fail("object-history:reference", "fresh-object answer of %s differs from the independent reference" % n, {"kind": "objhist", "L": L, "depth": depth})
+            return
     seen = set()
     for D in range(2, depth + 1):
         for hist in itertools.product(range(len(names)), repeat=D):
